@@ -1,5 +1,6 @@
 /- C29 — property theorems (decision logic outright; transparency under the gzip contract). -/
 import TornadoModel.C29.Lemmas
+import TornadoModel.C29.RunLevel
 namespace TornadoModel.C29
 open TornadoModel.C02
 open TornadoModel.C06 (Str normalize)
@@ -139,6 +140,57 @@ theorem decoded_equals_written (gz : Gz) (gunzip : Bytes → Option Bytes) (hctr
 theorem identity_when_not_compressing (gz : Gz) (calls : GzHist) :
     feed gz { gzipping := false } calls = some ({ gzipping := false }, calls.map (·.1)) :=
   feed_identity gz calls _ rfl
+
+/-- **run_transparent** (run level, over whole handler programs, about the bytes on the wire): for every request
+    shape (not HEAD, no `If-None-Match` hit), every Accept-Encoding header and every exception-free program
+    (`C02.opClean`: any interleaving of write / flush / finish, any Content-Type or other header set / added /
+    cleared except `Transfer-Encoding` / `Content-Length`, body-carrying statuses), with any gzip writer / reader
+    pair satisfying the contract: the strict client (`C02.Spec.clientParse`) reads **exactly one response with
+    nothing left over**, and undoing the coding the transform applied — `gunzip` iff it compressed — yields
+    **exactly the bytes the handler wrote** (`C02.bodyOf prog`).  Covers all three framings (automatic
+    Content-Length rewritten to the encoded length, chunked, close-delimited). -/
+theorem run_transparent (gz : Gz) (gunzip : Bytes → Option Bytes) (hctr : Spec.GzContract gz gunzip)
+    (rq : Req) (ae : Option Str) (hrq : reqOK rq = true) (hm : rq.method ≠ Method.head)
+    (hinm : rq.inmMatch = false) (prog : List Op) (hops : ∀ op ∈ prog, opClean op = true) :
+    ∃ hs d body,
+      C02.Spec.clientParse (rq.method == .head) (wire (run gz rq ae prog).base.conn) (run gz rq ae prog).base.conn.closed
+        = .ok (⟨headStatus 200 prog, reason (headStatus 200 prog), hs, body, d⟩, []) ∧
+      (if (run gz rq ae prog).t.gzipping then gunzip body else some body) = some (bodyOf prog) := by
+  obtain ⟨hs, d, body, h1, h2, h3⟩ := run_clean29 gz rq ae hrq hm hinm prog hops
+  refine ⟨hs, d, body, h1, ?_⟩
+  cases hg : (run gz rq ae prog).t.gzipping with
+  | false => simp only [Bool.false_eq_true, if_false]; rw [h3 hg]
+  | true =>
+    obtain ⟨a1, a2, a3⟩ := h2 hg
+    simp only [if_true]
+    rw [a2, ← a3]
+    exact hctr _ a1
+
+/-- **run_feed_is_writes** (no contract needed): in the same runs the transform is fed exactly the program's
+    writes, as flushes followed by exactly one close, and the response body is the concatenation of what it emitted;
+    a non-compressing transform leaves the body equal to the writes. -/
+theorem run_feed_is_writes (gz : Gz) (rq : Req) (ae : Option Str) (hrq : reqOK rq = true) (hm : rq.method ≠ Method.head)
+    (hinm : rq.inmMatch = false) (prog : List Op) (hops : ∀ op ∈ prog, opClean op = true) :
+    ∃ hs d body,
+      C02.Spec.clientParse (rq.method == .head) (wire (run gz rq ae prog).base.conn) (run gz rq ae prog).base.conn.closed
+        = .ok (⟨headStatus 200 prog, reason (headStatus 200 prog), hs, body, d⟩, []) ∧
+      ((run gz rq ae prog).t.gzipping = true →
+        Spec.WellClosed (run gz rq ae prog).t.hist ∧ body = (Spec.outputs gz (run gz rq ae prog).t.hist).flatten ∧
+        ((run gz rq ae prog).t.hist.map (·.1)).flatten = bodyOf prog) ∧
+      ((run gz rq ae prog).t.gzipping = false → body = bodyOf prog) :=
+  run_clean29 gz rq ae hrq hm hinm prog hops
+
+/-! non-vacuity of the run-level theorems: a clean program that is compressed and streamed, one that is compressed in
+    one shot is covered by the tie; here the hypotheses and both outcomes of the decision -/
+example : reqOK { method := .get, v11 := true, conn := .absent } = true ∧
+    (∀ op ∈ [Op.setHeader nCT [116, 101, 120, 116, 47, 120], .write [97], .flush, .write [98], .finish (some [99])],
+      opClean op = true) := by decide
+example : (run (fun h => (h.getLast?.map (·.1)).getD []) { method := .get, v11 := true, conn := .absent } (some vGzip)
+    [Op.setHeader nCT [116, 101, 120, 116, 47, 120], .write [97], .flush, .write [98], .finish (some [99])]).t
+      = { gzipping := true, hist := [([97], false), ([98, 99], true)], fileClosed := true } := by decide
+example : (run (fun h => (h.getLast?.map (·.1)).getD []) { method := .get, v11 := true, conn := .absent } none
+    [Op.setHeader nCT [116, 101, 120, 116, 47, 120], .write [97], .flush, .write [98], .finish (some [99])]).t.gzipping
+      = false := by decide
 
 /-! non-vacuity: the hypotheses are satisfiable and the decision is reachable both ways -/
 
